@@ -163,17 +163,21 @@ CLAIMED = {
         design="§4 C12",
     ),
     "C09": dict(
-        text="Machine-checked refinement (Lean 4): for every layout stub++nonce(4)++size(4)++enc, every nonce, both file kinds and every history "
-             "of seek(SET/CUR/END)/read(n)/tell whose seeks land at logical positions >= 0 (incl. beyond EOF), the model of XorEncodedFile produces "
-             "exactly the outputs of a plain file over rollDecode(nonce,enc) and tell advances by the bytes returned (read_refines for all n, "
-             "history_refines by induction over the op list; read_nonce proved correct at every alignment incl. the 0-3 splice). Detection is proved "
-             "to yield the true offset through the size relation, to try candidates in Counter.most_common order, to return the first that passes "
-             "the MZ check and to raise ValueError otherwise; the MZ check is modelled and proved to pass on PE headers and never to raise. The "
-             "pre-fix read_nonce is proved to violate the refinement.",
-        note="Seeks to negative logical positions are excluded (BytesIO and OS files disagree there). iter_find_needle is a parameter of the "
-             "detection theorems, cross-checked with the C15 model in the driver; PyFile, Counter.most_common and cstruct reads are modelled, not "
-             "verified. Tied to the code by ~32k (quick) / ~356k (thorough) in-process comparisons on BytesIO and on buffered and unbuffered temp "
-             "files, incl. exhaustive (seek p, read n, tell, read m, tell) for len <= 9 (<= 13 thorough); seek's raw return value is correspondence-only.",
+        text="Machine-checked refinement (Lean 4): for every layout stub++nonce(4)++size(4)++enc, every nonce, both kinds of underlying file and "
+             "EVERY history of seek(any offset, any whence)/read(any n)/tell - no hypothesis on the history - the model of XorEncodedFile produces "
+             "exactly the outputs (including exceptions) of io.BytesIO over rollDecode(nonce,enc), and tell advances by the bytes returned "
+             "(history_refines_all_seeks, trace_refines_all_seeks, read_refines for all n; read_nonce proved correct at every alignment incl. the "
+             "0-3 splice; the pre-fix seek and the pre-fix read_nonce are kept as separate definitions and refuted). Detection is proved for the "
+             "REAL marker scanner (the C15 model of iter_find_needle, every buffer size): candidates are exactly marker hits + size-relation "
+             "offsets (real_candidates_characterised, true_offset_is_candidate_real), tried in Counter.most_common order, the first passing the MZ "
+             "check wins, ValueError otherwise (detect_ok_iff_real, detect_first_passing_real, detect_rejects_real, detect_sound_real), and a stage "
+             "whose decoded content starts with a PE image is found under byte-level hypotheses only (detect_correct_real_clean).",
+        note="Inherent partial: detect_correct_* need NoSpuriousCandidate (the code returns the first passing candidate). The marker-scan limit cut "
+             "is exact for B >= maxrange+3 (the shipped 8192/1024) and sound/complete/bounded for every B. Out of model: seek offsets beyond the "
+             "file-offset limits (2^44 on this ext4, 2^63 - (nonce_offset+8) on BytesIO), whence < 0, closed files. PyFile, Counter.most_common and "
+             "cstruct reads are modelled, not verified. Tied to the code by ~35k (quick) / ~390k (thorough) in-process comparisons on BytesIO and on "
+             "buffered and unbuffered temp files incl. negative seeks and invalid whence values, with a plain io.BytesIO replay as independent oracle; "
+             "exhaustive (seek p, read n, tell, read m, tell) for len <= 9 (<= 13 thorough). Two defects found here were repaired (fix: f64b15d, 13416c7).",
         design="§4 C09",
     ),
     "C17": dict(
